@@ -59,7 +59,7 @@ def s_run(rng, budget_words=2600):
         j["battery"] = 1
     if wall[0]:
         from .runner import predicted_cost
-        j["wallstep"] = [int(wall[1] * predicted_cost(j) * 1e9), wall[2]]  # the wall clock steps backwards during the run
+        j["wallstep"] = [int((0.4 + wall[1]) * predicted_cost(j) * 1e9), wall[2]]  # the wall clock steps backwards during the run
     if rng.random() < 0.25:
         j["ops"] = rng.getrandbits(31) | 1  # other public API calls between the draws
     if rng.random() < 0.25:
@@ -115,8 +115,11 @@ def g_run(rng):
 def t_run(rng, k, gens):
     """Many threads over the life of the process: `gens` generations of `k` threads (more than 255 in
     total for the larger shapes), two multi-word draws each."""
-    return _job("T", rng, K=k, gens=gens, D=2, sizes=[rng.choice([7, 8])], types=rng.choice(["lut", "static"]), main=0,
-                warm=rng.randint(0, 1), preempt=rng.choice(PREEMPT), release=rng.randint(0, 1), **{"yield": rng.randint(0, 1)})
+    j = _job("T", rng, K=k, gens=gens, D=2, sizes=[rng.choice([7, 8])], types=rng.choice(["lut", "static"]), main=0,
+             warm=rng.randint(0, 1), preempt=rng.choice(PREEMPT), release=rng.randint(0, 1), **{"yield": rng.randint(0, 1)})
+    if k > 16:
+        j["bar"] = 1  # all k workers of a generation are alive, each having drawn once, before any makes its second draw
+    return j
 
 
 def c_run(rng):
@@ -131,16 +134,18 @@ WALL_BACK_S = [1, 3600, 400 * 86400, 2_000_000_000]  # one second .. further bac
 
 
 def k_run(rng):
-    """Clock faults: the wall clock (SystemTime) is stepped backwards once, somewhere in the first half of the run
+    """Clock faults: the wall clock (SystemTime) is stepped backwards once, somewhere in the middle of the run
     (by a second, an hour, a year, or to before the UNIX epoch), optionally on top of a coarse clock; Instant stays
     monotonic, as its contract says."""
-    j = _job("K", rng, K=rng.choice([1, 2, 4]), D=rng.choice([24, 32, 48]), sizes=[rng.choice([7, 8]), rng.choice([0, 2, 5, 6])],
+    j = _job("K", rng, K=rng.choice([1, 2, 2]), D=rng.choice([96, 128]), sizes=[rng.choice([7, 8]), rng.choice([0, 2, 5, 6])],
              types=rng.choice(["lut", "static", "both"]), main=rng.randint(0, 1), warm=rng.randint(0, 1), preempt=rng.choice(PREEMPT),
              gens=rng.choice([1, 1, 2]), **{"yield": rng.randint(0, 1)})
     if rng.random() < 0.5:
         j["clockq"] = rng.choice(CLOCKQ)
     from .runner import predicted_cost
-    j["wallstep"] = [int(rng.uniform(0.05, 0.5) * predicted_cost(j) * 1e9), rng.choice(WALL_BACK_S)]
+    # the simulated clock runs at about 1.3-1.7x the predicted wall-clock cost of a run: the step lands in the middle
+    # third of the run, seconds of simulated time after the threads were born and seconds before they finish
+    j["wallstep"] = [int(rng.uniform(0.45, 0.9) * predicted_cost(j) * 1e9), rng.choice(WALL_BACK_S)]
     return j
 
 
@@ -149,7 +154,8 @@ def o_run(rng, op):
     sizes = [rng.choice([2, 3, 4, 5, 6, 0, 1, 7, 3, 4, 5, 6])]
     ops = 2 * (op + NOPS * (1 + rng.randrange(63)))  # even seed = fixed mode: op = (ops/2) % NOPS, arg = (ops/2) / NOPS
     k, m = rng.choice([(1, 0), (0, 1), (1, 1)])
-    return _job("O", rng, K=k, main=m, D=256, sizes=sizes, types="both", ops=ops, warm=rng.randint(0, 1) if k else 0, release=1 if rng.random() < 0.3 else 0,
+    # op 36 (canonization of a multi-word constant operand) costs ~0.1 s of interpretation per call: 64 draws per type
+    return _job("O", rng, K=k, main=m, D=256 if op != 36 else 64, sizes=sizes, types="both", ops=ops, warm=rng.randint(0, 1) if k else 0, release=1 if rng.random() < 0.3 else 0,
                 preempt=rng.choice(PREEMPT), **{"yield": rng.randint(0, 1)})
 
 
